@@ -178,3 +178,41 @@ Definition wf_file (f : rawfile) : Prop :=
   Forall wf_block (f_blocks f) /\
   words (f_tail1 f) /\ length (f_tail1 f) = 3%nat /\ word (f_entries f) /\
   words (f_tail2 f) /\ length (f_tail2 f) = 4%nat.
+
+(* ---------------------------------------------------------------- executable well-formedness (sound w.r.t. wf_*:
+   PV.Props.C03Wf) — lets a run certify inside Coq that a generated structure lies within the theorems' quantifier *)
+Definition wordb (w : Z) : bool := (0 <=? w) && (w <? 2^32).
+Definition wordsb (l : list Z) : bool := forallb wordb l.
+Definition byteb (b : Z) : bool := (0 <=? b) && (b <? 128).
+Definition wf_robb (r : rob) : bool :=
+  wordb (rb_version r) && wordb (rb_source r) && wordsb (rb_status r) && wordsb (rb_spec r) &&
+  wordsb (rd_hdr7 r) && Nat.eqb (length (rd_hdr7 r)) 7 && wordsb (rd_status r) && wordsb (rd_data r) && wordb (rd_pos r) &&
+  (zlen (enc_rob r) <? 2^32).
+Definition wf_rosb (r : ros) : bool :=
+  wordb (rs_version r) && wordb (rs_source r) && wordsb (rs_status r) && wordsb (rs_spec3 r) &&
+  Nat.eqb (length (rs_spec3 r)) 3 && forallb wf_robb (rs_robs r) && (zlen (enc_ros r) <? 2^32).
+Definition wf_sdbodyb (id : Z) (b : sdbody) : bool :=
+  match b with
+  | SDRos l => forallb wf_rosb l
+  | SDRaw ws => wordsb ws && match det_of_id id with None => true | Some _ => false end
+  end.
+Definition wf_subdetb (s : subdet) : bool :=
+  wordb (sd_version s) && wordb (sd_source s) && wordsb (sd_status s) && wordsb (sd_spec s) &&
+  wf_sdbodyb (sd_id s) (sd_body s) && (zlen (enc_subdet s) <? 2^32).
+Definition wf_eventb (e : event) : bool :=
+  wordb (ev_source e) && wordsb (ev_status e) && wordb (ev_time e) && wordb (ev_no e) && wordb (ev_run e) &&
+  wordb (ev_l1 e) && wordsb (ev_spare e) && Nat.eqb (length (ev_spare e)) 2 &&
+  wordb (ev_tag1 e) && wordb (ev_tag2 e) && wordb (ev_tag3 e) && wordb (ev_tag4 e) &&
+  forallb wf_subdetb (ev_subs e) && (zlen (enc_event e) <? 2^32).
+Definition wf_blockb (b : block) : bool :=
+  wordb (bk_w1 b) && wordb (bk_w2 b) && negb (match bk_events b with [] => true | _ => false end) &&
+  forallb wf_eventb (bk_events b) && (4 * zlen (flat_map enc_event (bk_events b)) <? 2^32).
+Definition wf_fileb (f : rawfile) : bool :=
+  wordb (f_hdr1 f) && wordb (f_version f) && wordb (f_number f) && wordb (f_date f) && wordb (f_time f) &&
+  wordb (f_hdr6 f) && wordb (f_hdr7 f) &&
+  forallb byteb (f_name f) && byteb (f_name_pad f) && forallb byteb (f_tag f) && byteb (f_tag_pad f) &&
+  (zlen (f_name f) <? 2^32) && (zlen (f_tag f) <? 2^32) &&
+  wordb (f_rp1 f) && wordsb (f_run_params f) && Nat.eqb (length (f_run_params f)) 7 &&
+  forallb wf_blockb (f_blocks f) &&
+  wordsb (f_tail1 f) && Nat.eqb (length (f_tail1 f)) 3 && wordb (f_entries f) &&
+  wordsb (f_tail2 f) && Nat.eqb (length (f_tail2 f)) 4.
